@@ -36,25 +36,26 @@ TSer == /\ IsEvent("Ser") /\ Get(samplers, Rec[l].sid) # 0 /\ Get(blobs, Rec[l].
 TDe == /\ IsEvent("De") /\ Get(blobs, Rec[l].blob) # 0 /\ Get(samplers, Rec[l].sid) = 0
        /\ samplers' = Put(samplers, Rec[l].sid, blobs[Rec[l].blob])
        /\ UNCHANGED <<blobs, thr, memo, qmemo>>
-TBegin == /\ IsEvent("Begin") /\ Get(thr, Rec[l].t) = 0 /\ Get(samplers, Rec[l].sid) # 0
+Call(t) == IF t \in DOMAIN thr THEN thr[t] ELSE <<>>          \* <<>> = thread idle
+TBegin == /\ IsEvent("Begin") /\ Call(Rec[l].t) = <<>> /\ Get(samplers, Rec[l].sid) # 0
           /\ thr' = Put(thr, Rec[l].t, <<Rec[l].sid, Rec[l].arg>>)
           /\ UNCHANGED <<samplers, blobs, memo, qmemo>>
 \* End: the result must be what was learnt for (origin, arg), or is learnt now
-TEnd == /\ IsEvent("End") /\ Get(thr, Rec[l].t) # 0
+TEnd == /\ IsEvent("End") /\ Call(Rec[l].t) # <<>>
         /\ LET c == thr[Rec[l].t]
                k == <<samplers[c[1]], c[2]>>
-           IN /\ (Get(memo, k) = 0 \/ memo[k] = Rec[l].res)
+           IN /\ (IF Get(memo, k) = 0 THEN TRUE ELSE memo[k] = Rec[l].res)
               /\ memo' = Put(memo, k, Rec[l].res)
-        /\ thr' = Put(thr, Rec[l].t, 0)
+        /\ thr' = Put(thr, Rec[l].t, <<>>)
         /\ UNCHANGED <<samplers, blobs, qmemo>>
 \* queries (dimension, dod, table digest) are functions of the origin as well
 TQuery == /\ IsEvent("Query") /\ Get(samplers, Rec[l].sid) # 0
           /\ LET k == <<samplers[Rec[l].sid], Rec[l].what>>
-             IN /\ (Get(qmemo, k) = 0 \/ qmemo[k] = Rec[l].res)
+             IN /\ (IF Get(qmemo, k) = 0 THEN TRUE ELSE qmemo[k] = Rec[l].res)
                 /\ qmemo' = Put(qmemo, k, Rec[l].res)
           /\ UNCHANGED <<samplers, blobs, thr, memo>>
 \* generate_sample_from_rng draws exactly get_dimension() numbers
-TRng == /\ IsEvent("Rng") /\ Rec[l].draws = Rec[l].dim
+TRng == /\ IsEvent("Rng") /\ Rec[l].draws = Rec[l].dim /\ Rec[l].same_numbers
         /\ UNCHANGED <<samplers, blobs, thr, memo, qmemo>>
 
 TNext == TBuild \/ TClone \/ TSer \/ TDe \/ TBegin \/ TEnd \/ TQuery \/ TRng
